@@ -470,11 +470,14 @@ func (fr *Frame) execBinOp(x *ssa.BinOp, reach string, h Heap) {
 			if shr, cnt, ok := fr.bitTestPattern(x); ok {
 				bits, _, _ := intInfo(shr.X.Type())
 				c := fr.valOf(cnt)
-				fr.safetyOblig("shift-count", "shift count below operand width", reach, and(icmp("<=", "0", c.T), icmp("<", c.T, ilit(int64(bits)))))
+				// Go panics on a negative shift count; a count >= the operand width yields 0
+				if isSigned(cnt.Type()) {
+					fr.safetyOblig("shift-count", "shift count is not negative", reach, icmp("<=", "0", c.T))
+				}
 				t := app("bitof", fr.valOf(shr.X).T, c.T)
 				fr.setVal(x, t)
 				v := fr.vals[x]
-				u.assume(and(app("<=", "0", v.T), app("<=", v.T, "1")))
+				u.assume(and(app("<=", "0", v.T), app("<=", v.T, "1"), implies(icmp(">=", c.T, ilit(int64(bits))), eq(v.T, "0"))))
 				return
 			}
 		}
